@@ -462,7 +462,7 @@ pub fn cases(tier: Tier) -> Vec<Case> {
             supplies = permutations(n);
         }
         for rule in 0..5u8 {
-            for vset in 0..tier.pick(2u8, 3u8) {
+            for vset in tier.pick(vec![0u8, 2, 3], vec![0u8, 1, 2, 3]) {
                 for supply in supplies.iter() {
                     for ib in [None, Some(110.0)] {
                         for nk in 0..3u8 {
